@@ -199,6 +199,7 @@ def run(ctx):
     # correspondence: the splitter model against the implementation, statement by statement
     texts_all = common.corpus('split') + scripts[:ctx.n(1500, 20000)] + [gens.mixed_text(ctx.rng)[0] for _ in range(ctx.n(500, 5000))]
     dis, dumps = common.corr_stage('splitstream', texts_all, impl.splitstream_dump, 'splitstream')
+    kdone = common.kernel_route(ctx, 'split', texts_all, res)
     res['disagreements'] += dis
     for d in dumps:
         if d.startswith('OK ') and '||' in d:
@@ -214,6 +215,7 @@ def run(ctx):
         'samples': scripts[:4],
         'traces_validated_against_impl': len(texts_all),
         'distribution': {'statements_per_script': dict(dist), 'region_variants_checked': nreg,
+                         'kernel_evaluated_split (vm_compute inside coqc, compared with the implementation)': kdone,
                          'region_variants_discarded': skipped, 'length_histogram': common.length_hist(scripts)},
     })
     return res
